@@ -2,6 +2,8 @@
 //! against the real xeh crate and prints one canonical result line.
 pub mod util;
 pub mod bits;
+pub mod lexs;
+pub mod xs;
 
 pub fn dispatch(line: &str) -> String {
     let toks: Vec<&str> = line.split(' ').filter(|s| !s.is_empty()).collect();
@@ -10,6 +12,8 @@ pub fn dispatch(line: &str) -> String {
     }
     let r = std::panic::catch_unwind(|| match toks[0] {
         "bs" => bits::run(&toks[1..]),
+        "lex" => lexs::run(&toks[1..]),
+        "xs" => xs::run(&toks[1..]),
         other => format!("UNKNOWN-KIND {}", other),
     });
     match r {
